@@ -272,9 +272,9 @@ func (C08) Generate(r *core.RNG, tier string, idx uint64) interface{} {
 		return p
 	}
 	p.Mode = "decode"
-	if idx%400 == 1 {
+	if idx%200 == 1 {
 		p.Sweep = true
-		p.DLen = r.Pick(0, 1, 47, 48, 49, 100)
+		p.DLen = r.Pick(0, 1, 46, 47, 48, 49, 94, 95, 100)
 		return p
 	}
 	n := r.Range(1, 3)
@@ -505,6 +505,18 @@ func (e C08) Execute(plan interface{}, c *core.Ctx) *core.Verdict {
 				if v := try(canon[:i]+string(b)+canon[i:], fmt.Sprintf("ins@%d=%d", i, b)); v != nil {
 					v.Narrow = nil
 					return v
+				}
+			}
+			// the neighbouring characters of the base64 alphabet: same high bits, other low bits (non-canonical
+			// trailing bits when it is the last character before the padding)
+			const b64abc = "ABCDEFGHIJKLMNOPQRSTUVWXYZabcdefghijklmnopqrstuvwxyz0123456789+/"
+			if k := strings.IndexByte(b64abc, canon[i]); k >= 0 {
+				for _, d := range []int{1, 2, 3, 4, 8, 16} {
+					t := canon[:i] + string(b64abc[k^d]) + canon[i+1:]
+					if v := try(t, fmt.Sprintf("b64bit@%d^%d", i, d)); v != nil {
+						v.Narrow = &C08Plan{Mode: "decode", DSeed: p.DSeed, DLen: p.DLen, Muts: []ArmorMut{{Kind: "bytesub", I: i, B: int(b64abc[k^d])}}, Delivery: p.Delivery, Reads: p.Reads}
+						return v
+					}
 				}
 			}
 			for _, b := range []byte{'\n', ' ', '=', 'A', '\r'} {
